@@ -63,7 +63,7 @@ fn compare(acc: &mut Acc, reg: &Registry, s: &dyn Subject, base: &Ov, base_run: 
 }
 
 pub fn run(ctx: &Ctx, reg: &Registry) -> i32 {
-    let n_cases: u64 = ctx.tier.pick(60, 2500);
+    let n_cases: u64 = ctx.tier.pick(300, 4000);
     let n_joint: u64 = ctx.tier.pick(4, 16);
     let acc = ctx.par(|shard, n| {
         let mut acc = Acc::new();
